@@ -12,10 +12,20 @@ def expected_pgn(dp, pf, ps):
 
 
 class Violations(list):
+    """violations of one case; at most CAP entries per signature are kept (the count is what matters per case)"""
+    CAP = 3
+
+    def __init__(self):
+        super().__init__()
+        self._n = collections.Counter()
+
     def add(self, kind, msg, **sig):
         s = dict(kind=kind)
         s.update(sig)
-        self.append(dict(kind=kind, sig=s, msg=msg))
+        k = repr(sorted(s.items()))
+        self._n[k] += 1
+        if self._n[k] <= self.CAP:
+            self.append(dict(kind=kind, sig=s, msg=msg))
 
 
 def len_class(n, fd=False):
